@@ -232,7 +232,14 @@ def set_uid(
         return None
 
     if isinstance(value, bytes):
-        value = decode_bytes(value)
+        try:
+            value = decode_bytes(value)
+        except ValueError:
+            if validate:
+                raise
+
+            # The value is not significant and must not be tested
+            value = value.decode("ascii", errors="ignore")
 
     if isinstance(value, str):  # Includes UID
         value = UID(value)
